@@ -19,6 +19,8 @@ def mc(callers=3, hosts=2, timeout=300):
 def run(num, depth, seed):
     cfg = vlib.cfg_text(dict(GHosts=set(TARGETS), BadTargets=set(BAD), Depth=depth + 1, Bursts={1, 2, 8}), spec="GenSpec", invariants=["PrintHist"])
     hists = vlib.tlc_simulate("CertCacheGen", cfg, num + 1, depth + 1, seed)[:num]
+    # every third behaviour runs on an RSA-2048 CA (what the project's README has operators generate), the others on ECDSA P-256
+    hists = [([{"a": "ca", "rsa": True}] if i % 3 == 1 else []) + h for i, h in enumerate(hists)]
     return replay(hists)
 
 
